@@ -73,13 +73,6 @@ Definition bad_dealers_out (k : sim) : bool :=
 
 Definition is_keysb (res : result) : bool := match res with RKeys _ _ _ => true | _ => false end.
 
-Definition c08_prop_check (k : sim) : bool :=
-  no_honest_blamed k && bad_dealers_out k &&
-  (if s_must_fail k then forallb (fun p => negb (is_keysb (end_result p))) (s_parts k) else true) &&
-  (if s_must_keys k then forallb (fun p => is_keysb (end_result p)) (s_parts k) else true).
-
-Definition c08_prop_bad_ids (cs : list (N * sim)) : list N :=
-  map fst (filter (fun p => negb (c08_prop_check (snd p))) cs).
 
 (* ---- C07: honest participants agree ---- *)
 Open Scope Z_scope.
@@ -105,6 +98,22 @@ Definition keys_consistent (k : sim) (p : part) : bool :=
   | RFailure => true
   | _ => false
   end.
+
+(* C08, continued: "bad dealing never accepted".  A disqualified dealer's dealing is not part of what End
+   returns: in the Qual-based protocols the keys an honest participant gets are valid keys (its private share is
+   the discrete logarithm of its public share, all public shares and the group key lie on one polynomial of
+   degree <= t), whoever was disqualified on the way. *)
+Definition c08_prop_check (k : sim) : bool :=
+  no_honest_blamed k && bad_dealers_out k &&
+  (if s_must_fail k then forallb (fun p => negb (is_keysb (end_result p))) (s_parts k) else true) &&
+  (if s_must_keys k then forallb (fun p => is_keysb (end_result p)) (s_parts k) else true) &&
+  match s_proto k with
+  | 0%N => true
+  | _ => forallb (keys_consistent k) (s_parts k)
+  end.
+
+Definition c08_prop_bad_ids (cs : list (N * sim)) : list N :=
+  map fst (filter (fun p => negb (c08_prop_check (snd p))) cs).
 
 Definition same_result (a b : result) : bool :=
   match a, b with
